@@ -289,19 +289,23 @@ class Ctx:
         return 1 if nviol else 0
 
 
-def _limit_prefix(aslimit=True):
+def _limit_prefix(aslimit=True, cpu=None):
     """resource limits through prlimit(1) (a preexec_fn can deadlock when Popen is used from threads)"""
     pre = ['prlimit', '--fsize=%d' % (256 << 20), '--core=0']
     if aslimit:
         pre.append('--as=%d' % (4 << 30))
+    if cpu:
+        pre.append('--cpu=%d' % cpu)
     return pre + ['--']
 
 
-def run_limited(cmd, input=None, timeout=10, cwd=None, env=None, cap=16 << 20, aslimit=True):
+def run_limited(cmd, input=None, timeout=10, cwd=None, env=None, cap=16 << 20, aslimit=True, cpu=None):
     """Run a subject binary under time/memory/output limits. Returns (rc, out bytes, err bytes); rc = -9 on timeout.
-    aslimit=False for sanitizer builds (ASan reserves terabytes of address space)."""
+    aslimit=False for sanitizer builds (ASan reserves terabytes of address space).
+    cpu=N limits CPU seconds (SIGXCPU = rc -24): use it with a generous wall `timeout` where machine load must not
+    turn into a finding."""
     try:
-        p = subprocess.Popen(_limit_prefix(aslimit) + list(cmd), stdin=subprocess.PIPE if input is not None else subprocess.DEVNULL,
+        p = subprocess.Popen(_limit_prefix(aslimit, cpu) + list(cmd), stdin=subprocess.PIPE if input is not None else subprocess.DEVNULL,
                              stdout=subprocess.PIPE, stderr=subprocess.PIPE, cwd=cwd, env=env)
         out, err = p.communicate(input, timeout=timeout)
         return p.returncode, out[:cap], err[:1 << 20]
